@@ -407,3 +407,131 @@ func (p *Program) resultLenOf(info *types.Info, c *ast.CallExpr, idx int) (ast.E
 	}
 	return nil, 0, false
 }
+
+// ---------------------------------------------------------------------------
+// Index-search results: a helper whose int result is, on every return, either a negative constant or the index
+// variable of a loop over one of its slice parameters satisfies  minConst <= result < len(param).
+
+type resRange struct {
+	resultIdx int
+	lo        int64
+	paramIdx  int // result < len(arg paramIdx); -1: no upper bound known
+}
+
+func (p *Program) resultRange(callee *FuncInfo) *resRange {
+	if p.resRangeCache == nil {
+		p.resRangeCache = map[*FuncInfo]*resRange{}
+	}
+	if v, ok := p.resRangeCache[callee]; ok {
+		return v
+	}
+	p.resRangeCache[callee] = nil
+	if callee.Decl.Body == nil || callee.Obj == nil {
+		return nil
+	}
+	sig := callee.Obj.Type().(*types.Signature)
+	if sig.Results().Len() != 1 {
+		return nil
+	}
+	if b, ok := sig.Results().At(0).Type().Underlying().(*types.Basic); !ok || b.Info()&types.IsInteger == 0 {
+		return nil
+	}
+	info := callee.Pkg.TypesInfo
+	params := p.stableParams(callee)
+	rr := &resRange{lo: 0, paramIdx: -2}
+	ok := true
+	n := 0
+	inspectNoLit(callee.Decl.Body, func(x ast.Node) bool {
+		rs, isR := x.(*ast.ReturnStmt)
+		if !isR || !ok {
+			return true
+		}
+		n++
+		if len(rs.Results) != 1 {
+			ok = false
+			return true
+		}
+		e := ast.Unparen(rs.Results[0])
+		if k, isK := constInt(info, e); isK {
+			if k >= 0 {
+				ok = false
+			} else if k < rr.lo {
+				rr.lo = k
+			}
+			return true
+		}
+		id, isId := e.(*ast.Ident)
+		if !isId {
+			ok = false
+			return true
+		}
+		obj := info.Uses[id]
+		// the index variable of an enclosing loop over a stable slice parameter, not assigned in the loop body
+		bound := -1
+		for cur := p.Parent(rs); cur != nil; cur = p.Parent(cur) {
+			switch l := cur.(type) {
+			case *ast.RangeStmt:
+				if kid, isK := l.Key.(*ast.Ident); isK && info.Defs[kid] == obj && l.Tok == token.DEFINE {
+					if pid, isP := ast.Unparen(l.X).(*ast.Ident); isP {
+						if idx, st := params[info.Uses[pid]]; st && idx >= 0 {
+							if _, isSl := info.Uses[pid].Type().Underlying().(*types.Slice); isSl && !assignsTo(info, l.Body, obj) {
+								bound = idx
+							}
+						}
+					}
+				}
+			case *ast.ForStmt:
+				if init, isA := l.Init.(*ast.AssignStmt); isA && len(init.Lhs) == 1 && len(init.Rhs) == 1 && init.Tok == token.DEFINE {
+					if iid, isI := init.Lhs[0].(*ast.Ident); isI && info.Defs[iid] == obj {
+						k0, isK0 := constInt(info, init.Rhs[0])
+						cond, isB := ast.Unparen(l.Cond).(*ast.BinaryExpr)
+						inc, isInc := l.Post.(*ast.IncDecStmt)
+						if isK0 && k0 >= 0 && isB && cond.Op == token.LSS && isIdentOf(info, cond.X, obj) && isInc && inc.Tok == token.INC && isIdentOf(info, inc.X, obj) && !assignsTo(info, l.Body, obj) {
+							if lc, isL := ast.Unparen(cond.Y).(*ast.CallExpr); isL && exprStr(lc.Fun) == "len" && len(lc.Args) == 1 {
+								if pid, isP := ast.Unparen(lc.Args[0]).(*ast.Ident); isP {
+									if idx, st := params[info.Uses[pid]]; st && idx >= 0 {
+										bound = idx
+									}
+								}
+							}
+						}
+					}
+				}
+			}
+			if bound >= 0 {
+				break
+			}
+		}
+		if bound < 0 || rr.paramIdx >= 0 && rr.paramIdx != bound {
+			ok = false
+			return true
+		}
+		rr.paramIdx = bound
+		return true
+	})
+	if !ok || n == 0 || rr.paramIdx < 0 {
+		return nil
+	}
+	p.resRangeCache[callee] = rr
+	return rr
+}
+
+func assignsTo(info *types.Info, body ast.Node, obj types.Object) bool {
+	found := false
+	ast.Inspect(body, func(n ast.Node) bool {
+		switch s := n.(type) {
+		case *ast.AssignStmt:
+			for _, l := range s.Lhs {
+				if id, ok := l.(*ast.Ident); ok && info.Uses[id] == obj {
+					found = true
+				}
+			}
+		case *ast.IncDecStmt:
+			if id, ok := s.X.(*ast.Ident); ok && info.Uses[id] == obj {
+				found = true
+			}
+		}
+		return true
+	})
+	return found
+}
